@@ -116,7 +116,7 @@ class Recorder:
     def cons(self, X):
         Xc = _c(X)
         out = self.cons0(X)
-        self.emit("ConsCall", site=self.site(), X=np.atleast_2d(Xc), verdict=np.array(out).astype(bool).ravel().copy())
+        self.emit("ConsCall", site=self.site(), X=np.atleast_2d(Xc), verdict=(np.array(out).astype(float).ravel() > 0).copy())
         return out
 
     # ------------------------------------------------------------------
@@ -573,6 +573,10 @@ def _fault_value(kind, y, sd):
     """Invalid return values for fault injection (C10)."""
     if kind == "nan":
         return (float("nan"), sd) if sd is not None and kind.endswith("_pair") else float("nan")
+    if kind == "nan0d":
+        return np.array(float("nan"))
+    if kind == "sd_zero_arr":
+        return (y, np.array([0.0]))
     table = {
         "nan": float("nan"), "inf": float("inf"), "-inf": float("-inf"),
         "complex": complex(y, 1.0), "vector": np.array([y, y]), "none": None,
